@@ -10,7 +10,7 @@ import (
 // IsValidNatModN checks that ints are all in the range [1,…,N-1] and co-prime to N.
 func IsValidNatModN(N *saferith.Modulus, ints ...*saferith.Nat) bool {
 	for _, i := range ints {
-		if i == nil {
+		if i == nil || i.AnnouncedLen() > maxAnnouncedBits {
 			return false
 		}
 		if _, _, lt := i.CmpMod(N); lt != 1 {
